@@ -160,6 +160,7 @@ def check(prog, open_keys=()) -> Dict[str, Any]:
             super().run_stmt(s)
 
     run = Run(conn, on_flush)
+    run.reuse_handles = bool(prog.get("reuse_handles"))
     try:
         run.run_block(prog["stmts"])
     except Failure:
